@@ -76,31 +76,30 @@ async def check_tree(ctx, case):
         rewritten_group = T.map_expressions([group], lambda _h, x: T.rewrite_indicator(x, "SOLL", "MUSS"))[0]
         world = E.World("c14", rc=asg, fc={k: (int(k) % 2 == 0) for k in POOLS.fc}, pkg=case.get("pkg", {}))
 
-        async def failed_then_default():
+        async def default_before_and_after_a_refused_run():
             from ahbicht.validation.validation import validate_deep_anwendungshandbuch
 
             E.set_world(world)
-            first = "ok"
+            before = await validate_segment_level(TB.build_group(group))  # no flag given: whatever the default is ...
+            refused = False
             try:
                 await validate_deep_anwendungshandbuch(TB.build(spec), soll_is_required=False)
             except NotImplementedError:
-                first = "refused"
-            second = await validate_segment_level(TB.build_group(group))  # no flag given
-            return first, second
+                refused = True
+            after = await validate_segment_level(TB.build_group(group))  # ... it is the same default afterwards
+            return refused, before, after
 
-        async def reference():
-            E.set_world(E.World("c14", rc=asg, fc={k: (int(k) % 2 == 0) for k in POOLS.fc}, pkg=case.get("pkg", {})))
-            return await validate_segment_level(TB.build_group(rewritten_group), True)
-
-        a = await sched.run_under(None, failed_then_default)
-        b = await sched.run_under(None, reference)
+        a = await sched.run_under(None, default_before_and_after_a_refused_run)
         ctx.evaluation()
-        if a[0] == "ok" and a[1][0] == "refused":
-            ctx.count("default_flag_after_failed_run")
-        sa = ("ok", TB.summarise(a[1][1])) if a[0] == "ok" else ("exc", type(a[1]).__name__)
-        sb = outcome_summary(b)
-        if sa != sb:
-            ctx.violation("soll-flag-vs-rewriting", f"validate_segment_level({group['d']}) without a flag (default: SOLL as MUSS), called after a validation with soll_is_required=False that {'was refused' if a[0] == 'ok' and a[1][0] == 'refused' else 'went through'} in the same task, differs from the group with SOLL rewritten to MUSS under {asg}: {sa} vs {sb}"[:1000], case=case)
+        if a[0] == "ok":
+            refused, before, after = a[1]
+            if refused:
+                ctx.count("default_flag_after_failed_run")
+            if TB.summarise(before) != TB.summarise(after):
+                ctx.violation("soll-flag-vs-rewriting", f"validate_segment_level({group['d']}) called without a flag gives {TB.summarise(before)} before and {TB.summarise(after)} after a validation with soll_is_required=False that {'was refused' if refused else 'went through'} in the same task (under {asg}): the handling of SOLL depends on an earlier run"[:1000], case=case)
+                return
+        elif not isinstance(a[1], NotImplementedError):
+            ctx.violation(f"validation-raises-{type(a[1]).__name__}", f"validate_segment_level({group['d']}) without a flag {describe(a)[:200]}", case=case)
             return
     # the segment entry points take the flag as well
     segs = [n for n in T.walk(spec) if n["k"] == "S" and (any(p[0] == "SOLL" for p in n["x"]["parts"]) or any(d["k"] == "F" and any(p[0] == "SOLL" for p in d["x"]["parts"]) for d in n["des"]))]
